@@ -13,6 +13,7 @@ import ZorgVerif.Model.Saved
 import ZorgVerif.Model.Zo
 import ZorgVerif.Model.NoteText
 import ZorgVerif.Model.Action
+import ZorgVerif.Model.Crash
 /-! Line protocol: one JSON request per line on stdin, one JSON answer per line on stdout. -/
 open Lean ZorgVerif
 
@@ -397,6 +398,43 @@ def handleAction (op : String) (j : Json) : Except String Json := do
       ("targets", Json.arr (ts.map (fun t => jstr t.text)).toArray)])
   | _ => throw s!"unknown op {op}"
 
+/-- `crash.effs`: the effect list of `db reindex` / `db create` for a store given as association lists
+(texts and pages are opaque strings); `proc` = [[text, [post, page]]] is the processing result per text,
+`mid` = [[path, [text]]] the intermediate text of a twice-rewritten page. -/
+def handleCrash (op : String) (j : Json) : Except String Json := do
+  let single (k : String) : Except String (List (Str × Str)) := do
+    let ps ← pairsOf j k
+    pure (ps.map (fun kv => (kv.1, kv.2.headD [])))
+  let files ← single "files"
+  let hashes ← single "hashes"
+  let db ← single "db"
+  let proc ← pairsOf j "proc"
+  let mid ← single "mid"
+  let sem : Index.Sem Str := ⟨fun _ t => match proc.lookup t with
+    | some [post, pg] => (post, pg)
+    | _ => (t, t)⟩
+  let env : Crash.Env Str := { junk := fun _ => [], mid := fun p _ => mid.lookup p }
+  let s : Index.Store Str := { files := files, db := db, hashes := hashes }
+  let render (st : Index.Store Str) (e : Crash.Eff Str) : Json :=
+    let kv (m : List (Str × Str)) : Json := Json.arr (m.map (fun x => Json.arr #[jstr x.1, jstr x.2])).toArray
+    match e with
+    | .dbDamage p _ => Json.arr #["dbDamage", jstr p]
+    | .dbDrop p => Json.arr #["dbDrop", jstr p]
+    | .dbPut p pg => Json.arr #["dbPut", jstr p, jstr pg]
+    | .dbReset => Json.arr #["dbReset"]
+    | .dbPutAll ps => Json.arr #["dbPutAll", kv ps]
+    | .hashAll _ | .hashPut _ _ => Json.arr #["hash", kv (Crash.Eff.apply st e).hashes]
+    | .file p t => Json.arr #["file", jstr p, jstr t]
+  let effs ← match op with
+    | "crash.reindex" => pure (Crash.reindexEffs sem env s)
+    | "crash.create" => pure (Crash.createEffs sem s)
+    | _ => throw s!"unknown op {op}"
+  -- render every effect against the store it is applied to (hash effects are shown as the resulting map)
+  let (_, out) := effs.foldl (fun (acc : Index.Store Str × List Json) e => (Crash.Eff.apply acc.1 e, acc.2 ++ [render acc.1 e])) (s, [])
+  let fin := Crash.applyAll s effs
+  let kv (m : List (Str × Str)) : Json := Json.arr (m.map (fun x => Json.arr #[jstr x.1, jstr x.2])).toArray
+  pure (Json.mkObj [("effects", Json.arr out.toArray), ("files", kv fin.files), ("hashes", kv fin.hashes), ("db", kv fin.db)])
+
 def handle (line : String) : Json :=
   match Json.parse line with
   | .error e => Json.mkObj [("driver_error", s!"parse: {e}")]
@@ -417,6 +455,7 @@ def handle (line : String) : Json :=
         else if op.startsWith "zo." then handleZo op j
         else if op.startsWith "nt." then handleNt op j
         else if op.startsWith "action." then handleAction op j
+        else if op.startsWith "crash." then handleCrash op j
         else .error s!"unknown op {op}"
       match r with
       | .ok v => v
